@@ -5,7 +5,7 @@ from ..common import dec_val
 
 FACTS = True
 MODULE = "Genql.Properties.C04"
-LEAN_TARGETS = [MODULE, "Genql.Properties.C04Model", "Genql.Proofs.KeyText", "Genql.Properties.C04On", "Genql.Obligations.C04"]
+LEAN_TARGETS = [MODULE, "Genql.Properties.C04Model", "Genql.Proofs.KeyText", "Genql.Properties.C04On", "Genql.Properties.C04Cmp", "Genql.Obligations.C04"]
 THEOREMS = ["Genql.C04." + t for t in [
     "catalogue_eq_groups", "catalog_flatten_perm", "catalog_member_key", "catalog_lookup_filter",
     "hash_inner_perm_textbook", "hash_left_perm_textbook", "flatMap_comm_perm", "nested_inner_perm_textbook",
@@ -15,7 +15,8 @@ THEOREMS = ["Genql.C04." + t for t in [
     "nestedRun_pure", "nestedPure_inner_eq", "nestedPure_left_eq", "toCatalog_entries", "hash_join_model_textbook",
     "nested_join_model_textbook"]] + ["Genql.KeyText." + t for t in [
         "tok_append_inj", "enc_injective", "encKey_injective", "rowKey_enc", "rowKey_eq_iff"]] + \
-    ["Genql.C04." + t for t in ["hard_eq_flat", "on_sound", "on_and_sound"]] + ["Genql.Obligations.C04.join_strategy_lines"]
+    ["Genql.C04." + t for t in ["hard_eq_flat", "on_sound", "on_and_sound", "rowKey_total", "valueOfText_mem",
+                               "join_cmp_model_textbook"]] + ["Genql.Obligations.C04.join_strategy_lines"]
 TRUSTED = ["Go map iteration order is an arbitrary permutation (results compared as multisets)",
            "SHA-256 of the key text is collision free", "sqlparser JoinType predicates (table copied in pylib/sqlgen.py)",
            "goroutine scheduling of the PARALLEL variants only permutes chunk order (mutex-protected append)"]
@@ -143,7 +144,11 @@ LEVEL_TEXT = ("Lean theorems: catalogues (first-appearance key groups) flatten t
               "(enc_injective, rowKey_eq_iff): two rows share a catalogue group iff their key column texts are equal. ON is "
               "evaluated with hard-coded reads on the merged key map: on the predicate fragment that is ordinary evaluation with "
               "flattened column names, so ON has its SQL truth value there and AND/OR/NOT pass the reads on to every operand "
-              "(hard_eq_flat, on_sound). "
+              "(hard_eq_flat, on_sound). Capstone (join_cmp_model_textbook): the executable model's execJoin of two aliased "
+              "tables on one comparison x.a op y.b (op in != < <= > >=), INNER and LEFT OUTER, sequential or PARALLEL flag, "
+              "succeeds and returns a permutation of the textbook join on the SQL comparison of the two column values - column "
+              "extraction, catalogues, ON on the merged key map and the pairing loops all unfolded; assumption: equal %v texts "
+              "mean equal values within each key column. "
               "Tied to /repo by the correspondence over all 17 join spellings.")
 LEVEL_NOTE = ("Go map order / goroutine schedule enter only as a permutation of key groups (proved irrelevant). A data race inside "
               "the PARALLEL variants cannot be exhibited by the model: that is C13's obligation. STRAIGHT_JOIN on LEFT/RIGHT is an "
